@@ -450,6 +450,23 @@ def check_wrapper_shapes(model, rep):
         raise AnalysisError(f'R06.8: only {n} wrapper sites decided ({nskip} skipped)')
 
 
+class _OnlyRule:
+    """Report proxy: keep the obligations of the listed rules of a shared check (renamed), drop the others."""
+
+    def __init__(self, rep, mapping):
+        self._rep, self._map = rep, mapping
+
+    def ob(self, rule, *a, **k):
+        if rule in self._map:
+            return self._rep.ob(self._map[rule], *a, **k)
+
+    def info(self, *a, **k):
+        pass
+
+    def __getattr__(self, name):
+        return getattr(self._rep, name)
+
+
 def run(model, rep, tier):
     from rules.c02 import check_compiled_subset_dependencies, check_fields_announced
     rep.explanation = (
@@ -464,6 +481,7 @@ def run(model, rep, tier):
     rep.rule('R06.3', 'isconstant/arguments overrides are conservative')
     rep.rule('R06.4', 'elementary transfer functions equal interval arithmetic')
     rep.rule('R06.6', 'rewrite rules fire on certain, not merely possible, equality of run-time lengths (= R01.7): the simplified expression keeps the announced shape')
+    rep.rule('R06.9', 'linear-algebra wrappers announce an inexact element kind (= R07.4)')
     rep.rule('R06.8', 'function-level wrappers announce the shape their evaluable node delivers behind the point axes (labelled-shape interpretation of both expressions)')
     rep.rule('R06.7', 'announced integer ranges are computed from the dependencies of the value only')
     rep.rule('R06.5', 'function.Array wrappers announce exactly the arguments their lowering depends on (= R13.5)')
@@ -477,6 +495,8 @@ def run(model, rep, tier):
     check_certain_equality(model, _Rename(rep, {'R01.7': 'R06.6'}))
     check_bounds_inputs(model, rep)
     check_wrapper_shapes(model, rep)
+    from rules.c07 import check_composites
+    check_composites(model, _OnlyRule(rep, {'R07.4': 'R06.9'}))   # element kind announced by the linear-algebra wrappers that go through functools.partial (not reachable for R06.8)
     check_compiled_subset_dependencies(model, rep, rule='R06.2')
     check_fields_announced(model, rep, rule='R06.2')
     rep.require('R06.1', 14)
